@@ -284,9 +284,14 @@ def run(res, tier, seed, wd, replay=None):
                        "(reset..drop); behaviours come from TLC's state graph (distinct by construction), driver runs are distinct seeds")
     res.add_tlc({"distinct": v["states"], "generated": v["states"]})
     res.sample({"kind": "trace excerpt (real code)", "events": read_head(trB1, 12)})
-    selftest_binding(res, trA, wd)
+    if not v["bad"]:
+        selftest_binding(res, trA, wd)
     # the integer abstraction (Apalache: all capacities) against the code's own fill counters on the random histories
-    vi = validate_trace("WriterIntTrace", trB1, wd, tag="wint")
+    try:
+        vi = validate_trace("WriterIntTrace", trB1, wd, tag="wint")
+    except ToolError as e:
+        # divergence-only tooling must never turn into a tool error of the property check
+        vi = {"checked": 0, "div": [["WriterIntTrace could not be evaluated", str(e)[:200]]]}
     res.notes["writerint_trace"] = "%d (written, buffered) snapshots of the real writer equal the prediction of WriterInt.tla and satisfy its inductive invariant; divergences: %d" % (vi.get("checked", 0), len(vi.get("div", [])))
     for d in vi.get("div", [])[:3]:
         res.divergences.append({"what": "WriterInt.tla no longer mirrors the fill counters of the code", "line_model_code": d})
